@@ -19,6 +19,15 @@ CHECKS = {
  "C17": ("exploration", "model-based admin/lookup histories judged after every acknowledgement (secret, role, uid/gid probes, ListUsers, users.json), gated cache-miss schedules at iamcache.afterFetch, porcupine per access key on concurrent histories, race-detector lane",
    "Sequential histories judge every lookup that starts after an acknowledged create/update/delete (current secret accepted, every older secret refused, role and uid/gid effective, store file valid); deterministic schedules interleave a cold-cache lookup with delete/update; concurrent histories of 8 clients are checked for linearizability per access key against an account register model.",
    "Trusts the account register model, porcupine, the single hook point in the cache-miss path; one gateway process as the property states; harness runs as root for chown probes.", "3/C17"),
+ "C07": ("exploration", "differential runtime monitor: reference S3 listing model + page-chain oracle vs direct calls of backend.Walk on generated in-memory trees and vs real ListObjects V1/V2 on posix buckets",
+   "Generated key sets (bytes below and above '/', nested prefixes, directory objects, keys that prefix others) x prefix x delimiter (incl. multi-character) x max-keys x marker/start-after/continuation-token; every first page and every followed marker chain is compared with an independent reference listing (each entry exactly once, ascending, <= max per page, terminating, true Size/ETag, no internal names). Held on the generated cases only.",
+   "Trusts the reference listing written from the S3 rules; posix cannot hold every key set (refused uploads are left out of the reference). Known findings: directory-walk order is not key order for siblings with a byte below '/', non-empty directory objects are not listed with a delimiter.", "3/C07"),
+ "C06": ("exploration", "fault-injecting client + state monitor: every upload mode x integrity field x corruption is sent to a real gateway, the key/part is compared with its previous state; uncorrupted twins as controls",
+   "PutObject and UploadPart in five payload encodings with exactly one integrity assertion falsified per case (Content-MD5, x-amz-content-sha256, five checksum algorithms as header and trailer, chunk and trailer signatures, declared lengths, truncations, extra data) on new and existing keys; a corrupted upload must be refused and leave the key byte-identical to before, the control must store exactly the declared bytes.",
+   "Trusts the harness's own SigV4/aws-chunked encoders (validated against the gateway by the self-test), tmpfs. Arguable inputs (bytes after the final chunk, omitted final chunk with intact data) are observed, not judged.", "3/C06"),
+ "C14": ("exploration", "differential runtime monitor: reference policy evaluator / glob matcher / validity judge vs direct calls of the exported auth functions (exhaustive glob space up to length 4/5 over {a,b,*,?}) and vs real requests under generated policies",
+   "The exported evaluator, glob matcher and document validator are called on millions of generated (policy, caller, action, resource) and (pattern, subject) cases and compared with a reference written from the property statement; the glob space over {a,b,*,?} is enumerated completely up to length 4 (quick) / 5 (thorough); invalid documents are PUT over a valid policy and the old policy must stay in force; real requests by two users under generated policies are compared with the reference decision.",
+   "Trusts the reference evaluator; documents whose validity the statement leaves open (wildcard action with one resource kind) are generated but not judged.", "3/C14"),
 }
 PENDING_REASON = "check not yet built in this session (under construction; see DESIGN.md section 3)"
 props=[json.loads(l)["id"] for l in open(os.path.join(V,"properties.jsonl"))]
